@@ -14,9 +14,11 @@ RULE = ("multi-stanza probe files over the query pool (fields, wildcards, altern
         "machine; non-trivial = at least one match")
 
 
-def probe_stanza(i, q):
+def probe_stanza(i, q, skip_underscore=False):
     stmts = [A.node(A.var("n")), A.attrn(A.var("n"), A.attr("st", A.integer(i)))]
     for c in q["caps"]:
+        if skip_underscore and c["name"].startswith("_"):
+            continue      # an unread `_` capture (its predicates must still filter the matches)
         stmts.append(A.attrn(A.var("n"), A.attr("c_" + c["name"].replace("-", "_"), A.cap(c["name"]))))
     return A.stanza(q["q"], stmts)
 
@@ -31,10 +33,30 @@ def make_cases(tier):
     singles = [(qi, s) for qi in range(len(pool)) for s in range(1, nsrc + 1)]
     if tier == "quick":
         r.shuffle(singles)
-        singles = singles[:60]
+        singles = singles[:220]
     for qi, s in singles:
-        prog = A.file([probe_stanza(1, pool[qi])])
+        prog = A.file([probe_stanza(1, pool[qi], skip_underscore=(qi + s) % 2 == 0)])
         cases += A.both_modes("c03s-%d-%d" % (qi, s), prog, s, visit=True)
+    # every pair of queries that reuse a capture name with different quantifiers (or at different positions), both orders
+    pairs = []
+    for a in range(len(pool)):
+        for b in range(len(pool)):
+            if a == b:
+                continue
+            qa = {c["name"]: c["q"] for c in pool[a]["caps"]}
+            qb = {c["name"]: c["q"] for c in pool[b]["caps"]}
+            shared = [n for n in qa if n in qb]
+            if any(qa[n] != qb[n] for n in shared) or (shared and len(qa) != len(qb)):
+                pairs.append((a, b))
+    rich = [2, 3, 5, 6, 7, 8, 11, 14, 17]      # sources with functions, calls, assignments, returns, blocks
+    if tier == "quick":
+        r.shuffle(pairs)
+        pairs = pairs[:70]
+    for a, b in pairs:
+        for s in ([r.choice(rich)] if tier == "quick" else rich):
+            skip = r.random() < 0.5
+            prog = A.file([probe_stanza(1, pool[a], skip), probe_stanza(2, pool[b], skip)])
+            cases += A.both_modes("c03p-%d-%d-%d" % (a, b, s), prog, s, visit=True)
     # multi-stanza files (2-4 stanzas, repetitions allowed, shared capture names)
     nmulti = 60 if tier == "quick" else 1500
     for k in range(nmulti):
@@ -42,7 +64,8 @@ def make_cases(tier):
         qs = [r.randrange(len(pool)) for _ in range(n)]
         if r.random() < 0.3:
             qs[1] = qs[0]
-        prog = A.file([probe_stanza(i + 1, pool[q]) for i, q in enumerate(qs)])
+        skip = r.random() < 0.5
+        prog = A.file([probe_stanza(i + 1, pool[q], skip) for i, q in enumerate(qs)])
         cases += A.both_modes("c03m-%d" % k, prog, r.randint(1, nsrc), visit=True)
     return cases
 
